@@ -217,7 +217,13 @@ func genCustom(r *hx.Rand, i int) interface{} {
 		case c < 86 && len(docs) > 0:
 			in.Polls = append(in.Polls, poll{payload: mkPayload(r.Pick(docs))})
 		case c < 91:
-			in.Polls = append(in.Polls, poll{Status: []int{500, 404, 204}[r.Intn(3)]})
+			// a status other than 200 — half of the time around a VALID NEW document (the body of a failed poll
+			// must not be installed), otherwise with an empty body
+			p := poll{Status: []int{500, 404, 204, 201, 202, 206, 299, 301, 304, 400, 503}[r.Intn(11)]}
+			if r.Chance(1, 2) {
+				p.payload = mkPayload(docOf(r, rt.Small.GenScript(r, 1+r.Intn(3))))
+			}
+			in.Polls = append(in.Polls, p)
 		case c < 94:
 			in.Polls = append(in.Polls, poll{Drop: true})
 		default:
